@@ -64,6 +64,9 @@ func gen(t *tl.T) {
 		{"shape_person.go", "personShoulderWidthFactor", "personShoulderWidthFactor"},
 		{"shape_person.go", "PERSON_AR_LIMIT", "personARLimit"},
 		{"shape_oval.go", "OVAL_AR_LIMIT", "ovalARLimit"},
+		{"shape_c4_person.go", "C4_PERSON_AR_LIMIT", "c4PersonARLimit"},
+		{"shape_c4_person.go", "HEAD_RADIUS_FACTOR", "c4HeadRadiusFactor"},
+		{"shape_c4_person.go", "BODY_TOP_FACTOR", "c4BodyTopFactor"},
 	} {
 		r := ratOf(t, t.Var("lib/shape/"+c.file, c.name))
 		t.Fact("lib/shape/%s:%s = %s", c.file, c.name, r.RatString())
